@@ -20,6 +20,7 @@ pub fn run(case: &Value, ctx: &Ctx) -> Outcome {
     let want_shape = if accept { usizes(&v["shape"]) } else { vec![] };
     let want_n = v["ntok"].as_u64().unwrap_or(0) as usize;
 
+    let canonical = sc["h"] == "canonical" && matches!(sc["b"].as_str().unwrap(), "single_blank") && matches!(sc["v"].as_str().unwrap(), "plain" | "int" | "inf" | "nan" | "minus_zero" | "neg_infinity");
     let path = cli::scratch(ctx, &format!("tg_{}_{id:016x}.sfs", std::process::id()), &file);
     let lib = guarded(|| {
         read::Builder::default()
@@ -33,7 +34,15 @@ pub fn run(case: &Value, ctx: &Ctx) -> Outcome {
     match (&lib, accept) {
         (Err(p), _) => out.fail(format!("textgrammar/lib-panic/{label}"), d(json!(p))),
         (Ok(Ok((s, n))), true) => out.check(*s == want_shape && *n == want_n, || format!("textgrammar/lib-shape/{label}"), || d(json!({"shape": s, "n": n}))),
-        (Ok(Err(e)), true) => out.fail(format!("textgrammar/lib-rejects-what-the-model-accepts/{label}"), d(json!(e))),
+        // A reader STRICTER than the as-built model breaks no listed property - unless it refuses what the tool itself writes
+        // (C07): canonical header, values separated by single blanks, a value spelling the writer can produce.
+        (Ok(Err(e)), true) => {
+            if canonical {
+                out.fail(format!("textgrammar/lib-rejects-what-the-tool-writes/{label}"), d(json!(e)));
+            } else {
+                out.tag("stricter-than-model".to_string());
+            }
+        }
         (Ok(Ok((s, n))), false) => out.fail(format!("textgrammar/lib-accepts-what-the-model-rejects/{label}"), d(json!({"shape": s, "n": n}))),
         (Ok(Err(_)), false) => out.check(true, String::new, || Value::Null),
     }
@@ -42,8 +51,13 @@ pub fn run(case: &Value, ctx: &Ctx) -> Outcome {
         out.fail(format!("textgrammar/cli-panic/{label}"), d(json!({"code": r.code, "stderr": r.stderr})));
     } else if accept {
         let parsed = cli::parse_npy(&r.stdout);
-        out.check(r.ok() && parsed.as_ref().map(|(s, x)| *s == want_shape && x.len() == want_n).unwrap_or(false),
-            || format!("textgrammar/cli-rejects-what-the-model-accepts/{label}"), || d(json!({"code": r.code, "stderr": r.stderr})));
+        let fine = r.ok() && parsed.as_ref().map(|(s, x)| *s == want_shape && x.len() == want_n).unwrap_or(false);
+        if canonical || r.ok() {
+            // accepted: it must be the spectrum the model reads; refused: only an alarm for what the tool writes itself
+            out.check(fine, || format!("textgrammar/cli-{}/{label}", if r.ok() { "reads-another-spectrum" } else { "rejects-what-the-tool-writes" }), || d(json!({"code": r.code, "stderr": r.stderr})));
+        } else {
+            out.check(r.stdout.is_empty() && !r.stderr.trim().is_empty(), || format!("textgrammar/cli-silent-rejection/{label}"), || d(json!({"code": r.code})));
+        }
     } else {
         out.check(!r.ok() && r.stdout.is_empty() && !r.stderr.trim().is_empty(),
             || format!("textgrammar/cli-accepts-what-the-model-rejects/{label}"), || d(json!({"code": r.code, "stdout_len": r.stdout.len(), "stderr": r.stderr})));
